@@ -3,7 +3,8 @@ open Wpull
 
 /-- engine name ↦ handler of the remaining tokens (one line per engine) -/
 def engines : List (String × (List String → String)) := [
-  ("ftp", Wpull.Ftp.handle)
+  ("ftp", Wpull.Ftp.handle),
+  ("pipeline", Wpull.Pipeline.handle)
 ]
 
 def handle (line : String) : String :=
